@@ -6,7 +6,7 @@ REPO = os.environ.get("XSIMD_REPO", "/repo")
 BUILD = os.path.join(VERIF, "build")
 BIN = os.path.join(BUILD, "bin")
 LL2C = os.path.join(BIN, "ll2c")
-EVIDENCE = os.path.join(VERIF, "evidence")
+EVIDENCE = os.environ.get("VERIF_EVIDENCE_DIR") or os.path.join(VERIF, "evidence")   # the override is used by tools/run_seeded.py only
 
 MFLAGS = ("-msse2 -msse3 -mssse3 -msse4.1 -msse4.2 -mavx -mavx2 -mfma -mfma4 -mavxvnni -mavx512f -mavx512cd "
           "-mavx512dq -mavx512bw -mavx512er -mavx512pf -mavx512ifma -mavx512vbmi -mavx512vbmi2 -mavx512vnni").split()
